@@ -8,6 +8,7 @@ package c13
 import (
 	"encoding/json"
 	"fmt"
+	"net"
 	"os"
 	"path/filepath"
 	"regexp"
@@ -142,7 +143,7 @@ var (
 )
 
 type Proxy struct {
-	Enabled                            bool
+	Enabled                              bool
 	Type, Host, Port, Username, Password string
 }
 
@@ -415,6 +416,7 @@ func Expect(k Constants, o Options, l Listener) Want {
 			if name == "" {
 				fail("host-name-empty")
 			}
+			name = ifaceAddr(name)
 			if hasPort {
 				p, ok := atoi32(port)
 				if !ok {
@@ -644,4 +646,31 @@ func Compare(got *Config, w Want, transport int) []Diff {
 		cmpStr(&d, "Transport.Name", got.PipeName, w.PipeName)
 	}
 	return d
+}
+
+// ifaceAddr: a host entry that names a local network interface means that interface's first
+// IPv4 address (operators write "eth0" for "whatever this box is called today"); any other
+// name is taken as it stands.
+func ifaceAddr(name string) string {
+	ief, err := net.InterfaceByName(name)
+	if err != nil {
+		return name
+	}
+	addrs, err := ief.Addrs()
+	if err != nil {
+		return name
+	}
+	for _, a := range addrs {
+		var ip net.IP
+		switch v := a.(type) {
+		case *net.IPNet:
+			ip = v.IP
+		case *net.IPAddr:
+			ip = v.IP
+		}
+		if v4 := ip.To4(); v4 != nil {
+			return v4.String()
+		}
+	}
+	return name
 }
